@@ -13,6 +13,7 @@ import (
 	"go/types"
 	"path/filepath"
 	"strings"
+	"time"
 
 	"github.com/gocql/gocql"
 	"verifharness/vh"
@@ -238,8 +239,24 @@ func main() {
 	if tier == "thorough" {
 		mult = 30
 	}
+	// the session tier runs first: if the code under test blocks or crashes, the concrete history is on record
+	// before the single-goroutine tiers (which cannot survive a blocking cache operation) are driven
+	sessionTier(r, out, path, mult)
+	poisoned := false
 	emit := func(op, class string) string {
-		a := st.exec(op)
+		if poisoned {
+			return "blocked"
+		}
+		ch := make(chan string, 1)
+		go func() { ch <- st.exec(op) }()
+		var a string
+		select {
+		case a = <-ch:
+		case <-time.After(15 * time.Second):
+			// a cache operation that never returns when driven from one goroutine (e.g. waits for a flight);
+			// the goroutine stays blocked, so the sequential tiers stop here
+			a, poisoned = "blocked", true
+		}
 		out.Case(op, a, class, true)
 		return a
 	}
@@ -377,6 +394,5 @@ func main() {
 			rec(nil, 4, cp)
 		}
 	}
-	sessionTier(r, out, path, mult)
 	out.Close(nil)
 }
